@@ -138,8 +138,29 @@ func Exec(root filesystem.Filespace, op treefs.Op) (r Result) {
 			if n <= 0 {
 				n = 64
 			}
-			r.Data, r.Note, e = ReadAllBuf(rd, n)
-			seterr(e)
+			switch op.Via {
+			case "copy", "head+copy":
+				// the reader's optional fast path (WriteTo through io.Copy), alone or after a header
+				// of op.Buf bytes was taken with Read
+				var sb strings.Builder
+				if op.Via == "head+copy" {
+					head := make([]byte, n)
+					k, he := io.ReadFull(rd, head)
+					sb.Write(head[:k])
+					if he != nil && he != io.EOF && he != io.ErrUnexpectedEOF {
+						seterr(he)
+					}
+				}
+				if r.Err == "" {
+					if _, ce := io.Copy(&sb, rd); ce != nil {
+						seterr(ce)
+					}
+				}
+				r.Data = sb.String()
+			default:
+				r.Data, r.Note, e = ReadAllBuf(rd, n)
+				seterr(e)
+			}
 			if ce := rd.Close(); ce != nil && r.Err == "" {
 				seterr(ce)
 			}
